@@ -3,13 +3,13 @@
 # For demonstrations that are cargo packages with path dependencies on the sub-agent's worktree /tmp/mut/<ID>.
 set -u
 ID="$1"; PATCH="$2"; DEMO="$3"
-WT=/tmp/mut/$ID
+WT=${SRC_ROOT:-/tmp/mut}/$ID
 cd $WT && git checkout -- strum strum_macros && git apply "$PATCH" || { echo "RESULT patch-does-not-apply"; exit 2; }
 T=$(cargo test --workspace --no-fail-fast --offline 2>&1)
 echo "$T" | grep -E "^test result" | awk '{p+=$4; f+=$6} END {print "suite-with-change: passed=" p " failed=" f}'
 SUITE_FAIL=$(echo "$T" | grep -E "^test result" | awk '{f+=$6} END {print f+0}')
-bash "$DEMO" >/tmp/mut/$ID.demo1.log 2>&1; R1=$?
+bash "$DEMO" >/tmp/$ID.demo1.log 2>&1; R1=$?
 git checkout -- strum strum_macros
-bash "$DEMO" >/tmp/mut/$ID.demo2.log 2>&1; R2=$?
+bash "$DEMO" >/tmp/$ID.demo2.log 2>&1; R2=$?
 echo "demo-with-change rc=$R1 ; demo-without-change rc=$R2"
-if [ "$SUITE_FAIL" = "0" ] && [ $R1 -ne 0 ] && [ $R2 -eq 0 ]; then echo "RESULT confirmed"; else echo "RESULT NOT-confirmed"; tail -5 /tmp/mut/$ID.demo2.log; fi
+if [ "$SUITE_FAIL" = "0" ] && [ $R1 -ne 0 ] && [ $R2 -eq 0 ]; then echo "RESULT confirmed"; else echo "RESULT NOT-confirmed"; tail -5 /tmp/$ID.demo2.log; fi
